@@ -133,6 +133,21 @@ def check_affine(ctx, case):
         if rb != wantv:
             ctx.fail('%s/readback' % sig, case, {'expected': [str(v) for v in wantv], 'got': [str(v) for v in rb], 'scale': str(s), 'bias': str(b)})
             return
+    # the affine wrapper survives writes of raw codes (set_val(raw=True), a bitwise operation on the object)
+    if sel is None and case.get('raw_after', True):
+        k2 = q[0][0]
+        for name2, fn2 in (('set_val-raw', lambda: x.set_val(np.array([t[0] for t in q]).reshape(np.asarray(x.val).shape), raw=True)),
+                           ('invert-twice', lambda: ~(~x))):
+            ok, y = ctx.guard(case, fn2, sig_prefix='%s/%s/' % (sig, name2))
+            if not ok:
+                return
+            rb2 = C.values(y)
+            if all(M.is_double(wv) for wv in wantv) and rb2 != wantv:
+                ctx.fail('affine/%s/readback' % name2, case, {'expected': [str(v) for v in wantv], 'got': [str(v) for v in rb2], 'scale': str(s), 'bias': str(b)})
+                return
+            if M.is_double(s * M.value_of(hi, f) + b) and C.frac_of(y.upper) != s * M.value_of(hi, f) + b:
+                ctx.fail('affine/%s/upper' % name2, case, {'got': str(y.upper)})
+                return
     # limits
     limits = {'upper': s * M.value_of(hi, f) + b, 'lower': s * M.value_of(lo, f) + b, 'precision': s * M.pow2(-f)}
     for name, wv in limits.items():
